@@ -8,6 +8,8 @@ import (
 	"fmt"
 	"reflect"
 	"sort"
+	realsync "sync"
+	realtime "time"
 )
 
 const (
@@ -37,6 +39,7 @@ func Begin(p int, s uint64) {
 	policy, seed = p, s
 	clock = int64(s%1_000_000_007) * 1_000
 	RangesTotal, RangesMulti, ClockReads, permuteCounter = 0, 0, 0, 0
+	GoroutinesSpawned, GoroutinesControlled, GoroutinesFallback = 0, 0, 0
 	SiteSizes = map[string]int{}
 	for i, f := range reseeders {
 		f(int64(mix(s, uint64(i+1)) >> 1))
@@ -128,4 +131,93 @@ func Pairs[M ~map[K]V, K comparable, V any](m M) []Pair[K, V] {
 		out[i] = Pair[K, V]{k, m[k]}
 	}
 	return out
+}
+
+// ---- goroutines spawned by the code under test ---------------------------------------------------
+
+// Gate holds one spawned goroutine until the simulator lets it run.
+type Gate struct {
+	id      int
+	release chan struct{}
+	done    chan struct{}
+	entered bool
+}
+
+var (
+	gateMu      realsync.Mutex
+	pending     []*Gate
+	gateCounter int
+	// reach
+	GoroutinesSpawned    int
+	GoroutinesControlled int
+	GoroutinesFallback   int // released by the wall-clock fallback (no join point the simulator knows)
+)
+
+// NewGate registers a goroutine at the point of its go statement (spawn order).
+func NewGate() *Gate {
+	gateMu.Lock()
+	defer gateMu.Unlock()
+	gateCounter++
+	GoroutinesSpawned++
+	g := &Gate{id: gateCounter, release: make(chan struct{}), done: make(chan struct{})}
+	pending = append(pending, g)
+	if len(pending) == 1 {
+		// fallback: a join the simulator does not intercept (channels, polling) must not deadlock
+		go func() {
+			realtime.Sleep(150 * realtime.Millisecond)
+			gateMu.Lock()
+			n := len(pending)
+			gateMu.Unlock()
+			if n > 0 {
+				GoroutinesFallback += n
+				RunPending()
+			}
+		}()
+	}
+	return g
+}
+
+// Enter parks the spawned goroutine until it is released.
+func (g *Gate) Enter() { <-g.release }
+
+// Exit reports that the goroutine has finished.
+func (g *Gate) Exit() { close(g.done) }
+
+// RunPending releases the pending goroutines one at a time in the order the policy decides and
+// waits for each to finish (bounded, so goroutines that wait for each other cannot deadlock it).
+func RunPending() {
+	gateMu.Lock()
+	batch := pending
+	pending = nil
+	gateMu.Unlock()
+	if len(batch) == 0 {
+		return
+	}
+	idx := make([]int, len(batch))
+	for i := range idx {
+		idx[i] = i
+	}
+	switch policy {
+	case Reversed:
+		for i, j := 0, len(idx)-1; i < j; i, j = i+1, j-1 {
+			idx[i], idx[j] = idx[j], idx[i]
+		}
+	case Permuted:
+		permuteCounter++
+		s := mix(seed, permuteCounter)
+		for i := len(idx) - 1; i > 0; i-- {
+			s = mix(s, uint64(i))
+			j := int(s % uint64(i+1))
+			idx[i], idx[j] = idx[j], idx[i]
+		}
+	}
+	for _, i := range idx {
+		g := batch[i]
+		close(g.release)
+		GoroutinesControlled++
+		select {
+		case <-g.done:
+		case <-realtime.After(2 * realtime.Second):
+		}
+	}
 }
